@@ -310,7 +310,7 @@ theorem ledger_handle_null_or_untouched_ythread_create_with_sched (o : Oracle) :
     handleOk ythread_create_with_sched (exec ythread_create_with_sched 400 o) = true :=
   (and4 (all_runs_exec_noparam ythread_create_with_sched 400 check_ythread_create_with_sched rfl runs_ythread_create_with_sched o)).2.2.1
 
-/-- **C18 / pre-existing objects untouched, PARTIAL** for `ythread_create` for a stackable scheduler (`ABT_pool_add_sched`): additionally registers the scheduler under `g_thread_sched_key`: holds for every run except those in which an error occurs after a key-table entry has been registered.  What is missing is exactly finding F8 (the failure branch calls `ABTI_ktable_free`, whose destructor for `g_thread_sched_key` frees the caller's automatic scheduler); the full statement is `Props/C18Strict.lean`. -/
+/-- **C18 / pre-existing objects untouched, PARTIAL** for `ythread_create` for a stackable scheduler (`ABT_pool_add_sched`): additionally registers the scheduler under `g_thread_sched_key`: holds for every run except those in which an error occurs after a key-table entry has been registered.  What is missing is exactly finding C18-A (the failure branch calls `ABTI_ktable_free`, whose destructor for `g_thread_sched_key` frees the caller's automatic scheduler); the full statement is `Props/C18Strict.lean`. -/
 theorem ledger_preexisting_untouched_ythread_create_with_sched_partial (o : Oracle) :
     preUntouchedBeforeKey (exec ythread_create_with_sched 400 o) = true :=
   (and4 (all_runs_exec_noparam ythread_create_with_sched 400 check_ythread_create_with_sched rfl runs_ythread_create_with_sched o)).2.2.2
